@@ -49,6 +49,39 @@ def _source(i, spec, log):
   return g()
 
 
+def _mk_stream(i, spec, log):
+  """the coefficient Stream number i; kind "gen": a generator logging every next(); the other kinds put a raw
+  itertools object / list / ControlStream behind the Stream (no log: the source is 'silent')"""
+  import audiolazy
+  kind = spec.get("kind", "gen")
+  vals = [ExactQ(unfr(v)) for v in spec["vals"]]
+  if kind == "gen":
+    return audiolazy.Stream(_source(i, spec, log))
+  if kind == "repeat_n":
+    return audiolazy.Stream(itertools.repeat(vals[0], len(vals)))
+  if kind == "repeat":
+    return audiolazy.Stream(itertools.repeat(vals[0]))
+  if kind == "lz_repeat":
+    import audiolazy.lazy_itertools as lz
+    return lz.repeat(vals[0], len(vals))
+  if kind == "islice_count":
+    step = vals[1] - vals[0] if len(vals) > 1 else ExactQ(1)
+    return audiolazy.Stream(itertools.islice(itertools.count(vals[0], step), len(vals)))
+  if kind == "iter_list":
+    return audiolazy.Stream(iter(vals))
+  if kind == "list":
+    return audiolazy.Stream(vals)
+  if kind == "cycle":
+    return audiolazy.Stream(*vals)
+  if kind == "control":
+    return audiolazy.ControlStream(vals[0])
+  raise ValueError(kind)
+
+
+def silent_ids(c):
+  return [i for i, sp in enumerate(c["srcs"]) if i > 0 and sp.get("kind", "gen") != "gen"]
+
+
 def _coef(c, env):
   if c[0] == "c":
     return ExactQ(Fraction(c[1], c[2]))
@@ -91,7 +124,7 @@ def run_tv(c):
   def stream(i):
     assert i not in made and i != 0
     made[i] = True
-    return audiolazy.Stream(_source(i, c["srcs"][i], log))
+    return _mk_stream(i, c["srcs"][i], log)
 
   env = {"stream": stream}
   try:
@@ -221,8 +254,8 @@ def lit_tv(c, o):
   else:
     obs = "OOther"
   mem = "MNone" if c["mem"] is None else "(MIter %s)" % L.lst([q(v) for v in c["mem"]])
-  return "(TCase %s %s %s %s %s %s)" % (expr_lit(c["expr"]), L.lst([src_lit(s) for s in c["srcs"]]), mem,
-                                        q(c["zero"]), L.nat(c["limit"]), obs)
+  return "(TCase %s %s %s %s %s %s %s)" % (expr_lit(c["expr"]), L.lst([src_lit(s) for s in c["srcs"]]), mem,
+                                           q(c["zero"]), L.nat(c["limit"]), L.lst([L.nat(i) for i in silent_ids(c)]), obs)
 
 
 # ----------------------------------------------------------------------------- generators
@@ -239,7 +272,11 @@ def src_vals(i, n, rng=None, zero_at=None):
 
 class Srcs(object):
   """allocates the sources of one case; source 0 is the input"""
-  def __init__(self, rng, nin, in_cyc=False, short=0.35, zero_p=0.0):
+  KINDS_FIN = ["repeat_n", "lz_repeat", "islice_count", "iter_list", "list"]
+  KINDS_INF = ["repeat", "cycle", "control"]
+
+  def __init__(self, rng, nin, in_cyc=False, short=0.35, zero_p=0.0, kinds_p=0.12):
+    self.kinds_p = kinds_p
     self.rng = rng
     self.short = short
     self.zero_p = zero_p
@@ -258,8 +295,37 @@ class Srcs(object):
     else:
       n, cyc = self.nin + rng.randrange(0, 3), False                # long enough
     z = rng.randrange(0, max(1, n)) if rng.random() < self.zero_p else None
-    self.list.append({"vals": src_vals(i, n, zero_at=z), "cyc": cyc})
+    spec = {"vals": src_vals(i, n, zero_at=z), "cyc": cyc}
+    if rng.random() < self.kinds_p and n >= 1:
+      self.silent_kind(spec, i, n, cyc)
+    self.list.append(spec)
     return ["s", i]
+
+  def new_kind(self, kind, n):
+    """a coefficient Stream of the given kind with n items (endless for the periodic kinds)"""
+    i = len(self.list)
+    cyc = kind in self.KINDS_INF
+    spec = {"vals": src_vals(i, max(n, 1)), "cyc": cyc}
+    self.silent_kind(spec, i, max(n, 1), cyc, kind=kind)
+    self.list.append(spec)
+    return ["s", i]
+
+  def silent_kind(self, spec, i, n, cyc, kind=None):
+    """the same source as a raw object behind the Stream (values adapted to what the object can deliver)"""
+    rng = self.rng
+    kind = kind or rng.choice(self.KINDS_INF if cyc else self.KINDS_FIN)
+    v0 = Fraction(10 * i + 1, (i % 3) + 1)
+    if kind in ("repeat_n", "lz_repeat"):
+      spec["vals"] = [fr(v0)] * n
+    elif kind in ("repeat", "control"):
+      spec["vals"], spec["cyc"] = [fr(v0)], True
+    elif kind == "islice_count":
+      spec["vals"] = [fr(v0 + k * Fraction(1, 2)) for k in range(n)]
+    elif kind == "cycle":
+      if len(spec["vals"]) < 2:
+        spec["vals"] = spec["vals"] + [fr(v0)]
+      spec["cyc"] = True
+    spec["kind"] = kind
 
 
 def cst(v):
@@ -456,6 +522,29 @@ def gen_alg(tier, rng):
             f = ["base", cpoly(P), [[0, cst(1)], [1, cst(Fraction(1, 2))]]]
             g = ["base", other(), cpoly(P)]
           yield mk_case([op, f, g], S, rng, ["coincide", shape, op])
+  # (1c) coefficient Stream KINDS: a raw itertools.repeat(v, n) / repeat(v) / lazy_itertools.repeat / islice(count) /
+  # iter(list) / list / cycle / ControlStream behind the Stream, in every position of an operand of + - * with a
+  # different denominator; finite kinds shorter than the input, so that the end of the output speaks for the reads
+  reps = 1 if tier == "quick" else 6
+  for kind in Srcs.KINDS_FIN + Srcs.KINDS_INF:
+    for pos in ("den1", "den0", "num", "scalar"):
+      for op in ("add", "sub", "mul"):
+        for _ in range(reps):
+          nin = rng.randrange(6, 9)
+          S = Srcs(rng, nin, short=0.0, kinds_p=0.0)
+          ks = S.new_kind(kind, rng.randrange(2, nin - 1))
+          logged = lambda: S.new() if rng.random() < 0.5 else cst(rng.choice(CONSTS))
+          if pos == "den1":
+            f = ["base", [[0, logged()]], [[0, cst(1)], [1, ks]]]
+          elif pos == "den0":
+            f = ["base", [[0, logged()], [1, cst(1)]], [[0, ks], [1, cst(Fraction(1, 2))]]]
+          elif pos == "num":
+            f = ["base", [[0, ks], [1, logged()]], [[0, cst(1)], [1, cst(Fraction(-1, 2))]]]
+          else:
+            f = ["mull", ks, ["base", [[0, cst(1)], [1, logged()]], [[0, cst(1)]]]]
+          g = ["base", [[0, logged()]], [[0, cst(2)], [1, logged()]]]
+          e = [op, f, g] if rng.random() < 0.5 else [op, g, f]
+          yield mk_case(e, S, rng, ["kinds", kind, pos, op])
   # (2) Stream * z**-k sums: the way the documentation builds time-varying filters
   n = 60 if tier == "quick" else 600
   for _ in range(n):
@@ -521,7 +610,7 @@ def run_ses(c):
   def stream(i):
     assert i not in made and i != 0
     made[i] = True
-    return audiolazy.Stream(_source(i, c["srcs"][i], log))
+    return _mk_stream(i, c["srcs"][i], log)
 
   try:
     flt = _build(c["expr"], {"stream": stream})
@@ -596,8 +685,8 @@ def lit_ses(c, o):
       obs.append("SORun %s %s" % (prog_lit(x["prog"]), L.lst([event_lit(e) for e in x["trace"]])))
   if o.get("stage") != "steps":
     obs = ["SOOther"]
-  return "(SCase %s %s %s %s %s)" % (expr_lit(c["expr"]), L.lst([src_lit(x) for x in c["srcs"]]), q(c["zero"]),
-                                     L.lst(steps), L.lst(obs))
+  return "(SCase %s %s %s %s %s %s)" % (expr_lit(c["expr"]), L.lst([src_lit(x) for x in c["srcs"]]), q(c["zero"]),
+                                        L.lst([L.nat(i) for i in silent_ids(c)]), L.lst(steps), L.lst(obs))
 
 
 def long_srcs(rng, nin=14):
@@ -658,29 +747,40 @@ def nontrivial_ses(c, o):
   return o.get("stage") == "steps" and sum(1 for x in o["obs"] if "trace" in x and len(x["trace"]) > 3) >= 1
 
 
-def known_tv(c, o):
-  """FINDING C06-zero-filter-gain-unread: ZFilter({}, {0: Stream}) - empty numerator, a Stream gain as the only
-  denominator term: the variable-gain branch multiplies two EMPTY Polys by the gain stream, the stream is dropped,
-  the all-zero program is generated, the gain stream is never read and the output does not end with it."""
-  if o.get("stage") != "run" or not isinstance(o.get("prog"), dict) or "zero" not in o["prog"]:
+def _zero_filter_signature(c, progs):
+  """FINDING C06-zero-filter-gain-unread (generalised): an identically-zero filter - empty numerator after
+  compaction - built from operands that carry coefficient Streams: the all-zero program is generated, the Streams
+  are never read, the output is `zero` once per input item."""
+  if not progs or not all(isinstance(p, dict) and "zero" in p for p in progs):
     return None
   if count_streams(c["expr"]) == 0:
     return None
-  # the signature, read off the filter the implementation builds: no numerator term, a Stream gain alone
   import audiolazy
   try:
     flt = _build(c["expr"], {"stream": lambda i: audiolazy.Stream(iter(()))})
-    num, den = flt.numpoly._data, flt.denpoly._data
-    if len(num) == 0 and list(den.keys()) == [0] and isinstance(den[0], audiolazy.Stream):
+    if len(flt.numpoly._data) == 0:
       return "C06-zero-filter-gain-unread"
   except Exception:
     pass
   return None
 
 
+def known_tv(c, o):
+  if o.get("stage") != "run":
+    return None
+  return _zero_filter_signature(c, [o.get("prog")])
+
+
+def known_ses(c, o):
+  if o.get("stage") != "steps":
+    return None
+  progs = [x["prog"] for x in o["obs"] if "prog" in x]
+  return _zero_filter_signature(c, progs)
+
+
 IMPORTS = "From AL Require Import C04.Model C06.Model C06.Spec C06.Check."
 FAMILIES = {
   "shape": Family("shape", IMPORTS, "tcase", "corr_tv", "holds_tv", gen_shape, run_tv, lit_tv, nontrivial_shape, known_tv),
   "alg": Family("alg", IMPORTS, "tcase", "corr_tv", "holds_tv", gen_alg, run_tv, lit_tv, nontrivial_alg, known_tv),
-  "ses": Family("ses", IMPORTS, "scase", "corr_ses", "holds_ses", gen_ses, run_ses, lit_ses, nontrivial_ses),
+  "ses": Family("ses", IMPORTS, "scase", "corr_ses", "holds_ses", gen_ses, run_ses, lit_ses, nontrivial_ses, known_ses),
 }
